@@ -16,6 +16,7 @@ import (
 type qPart struct {
 	kind  byte // 'k' key, 'f' filter, 'c' call
 	name  string
+	mark  bool // the key is written with its `?` mark (the name does not include it; a bare `?` is the key with the empty name)
 	group *qGroup
 	args  []qArg
 }
@@ -44,6 +45,9 @@ func (p *qPath) String() string {
 		switch pt.kind {
 		case 'k':
 			sb.WriteString("." + pt.name)
+			if pt.mark {
+				sb.WriteString("?")
+			}
 		case 'f':
 			sb.WriteString("[" + pt.group.body() + "]")
 		case 'c':
@@ -705,6 +709,20 @@ func runC20(c *Ctx) {
 		emit(&qPath{root: '$', parts: []qPart{{kind: 'k', name: "c"}, {kind: 'c', name: "Equal", args: []qArg{{path: dk("", "a", "c")}}}}}, nil, "named/one-name-at-two-depths")
 		emit(nil, &qGroup{ops: []qOp{{path: dk("Equal", "a", "b", "c", "d")}, {path: dk("Equal", "b", "c")}, {path: dk("Equal", "c")}, {path: dk("Equal", "d")}}}, "named/one-name-at-two-depths")
 		emit(nil, &qGroup{ops: []qOp{{path: &qPath{root: '$', parts: []qPart{{kind: 'k', name: "a"}, {kind: 'k', name: "b"}, {kind: 'f', group: &qGroup{ops: []qOp{{path: &qPath{root: '@', parts: []qPart{{kind: 'k', name: "c"}, {kind: 'c', name: "Equal", args: []qArg{{lit: "1"}}}}}}}}}, {kind: 'c', name: "Any"}}}}, {path: dk("Equal", "b")}}}, "named/one-name-at-two-depths")
+	}
+	// keys written with their `?` mark, and the key with the EMPTY name (a bare `?`): a root field like any other
+	{
+		k := func(name string, mark bool) qPart { return qPart{kind: 'k', name: name, mark: mark} }
+		eq := func(parts ...qPart) *qPath {
+			return &qPath{root: '$', parts: append(parts, qPart{kind: 'c', name: "Equal", args: []qArg{{lit: "1"}}})}
+		}
+		emit(&qPath{root: '$', parts: []qPart{k("", true)}}, nil, "named/the-key-with-the-empty-name")
+		emit(&qPath{root: '$', parts: []qPart{k("", true), k("b", false)}}, nil, "named/the-key-with-the-empty-name")
+		emit(nil, &qGroup{ops: []qOp{{path: eq(k("", true))}, {path: eq(k("a", false))}}}, "named/the-key-with-the-empty-name")
+		emit(&qPath{root: '$', parts: []qPart{k("", true), k("b", false), {kind: 'c', name: "Add", args: []qArg{{path: &qPath{root: '$', parts: []qPart{k("c", false)}}}}}}}, nil, "named/the-key-with-the-empty-name")
+		emit(&qPath{root: '$', parts: []qPart{k("b", false), {kind: 'f', group: &qGroup{ops: []qOp{{path: &qPath{root: '@', parts: []qPart{k("a", false), {kind: 'c', name: "Equal", args: []qArg{{path: &qPath{root: '$', parts: []qPart{k("", true), k("b", true)}}}}}}}}}}}, {kind: 'c', name: "Count"}}}, nil, "named/the-key-with-the-empty-name")
+		emit(nil, &qGroup{mode: "OR", ops: []qOp{{path: eq(k("a", true), k("", true))}, {path: eq(k("", true), k("a", true))}}}, "named/the-key-with-the-empty-name")
+		emit(&qPath{root: '$', parts: []qPart{k("a", true), k("b", true)}}, nil, "named/the-key-with-the-empty-name")
 	}
 	// one condition text twice: as the condition of a filter (where `@` is an element and reads no root field) and as a member of a
 	// top-level or nested group (where `@` is the root and does) - in both orders
